@@ -154,6 +154,13 @@ func c17Monitor(args []string) int {
 				if got := mg.GetMoveFromSan(p, san+d); got.MoveOf() != m.MoveOf() {
 					rep.Violate("san-roundtrip", map[string]interface{}{"fen": fen, "move": us, "san": san + d}, "parsed back as "+got.StringUci())
 				}
+				if strings.Contains(san, "x") { // the capture sign is decoration: the same move without it
+					bare := strings.Replace(san, "x", "", 1)
+					if got := mg.GetMoveFromSan(p, bare+d); got.MoveOf() != m.MoveOf() {
+						rep.Violate("san-roundtrip", map[string]interface{}{"fen": fen, "move": us, "san": bare + d}, "parsed back as "+got.StringUci())
+					}
+					rep.Stats["san_strings_without_capture_sign"]++
+				}
 				if m.MoveType() == Promotion { // also without '='
 					alt := san[:len(san)-2] + san[len(san)-1:]
 					if got := mg.GetMoveFromSan(p, alt); got.MoveOf() != m.MoveOf() {
